@@ -886,7 +886,65 @@ def check_C05(ctx):
               thorough_designs=[('MC_Sync', 'MC_Sync_cond3.cfg'), ('MC_Sync', 'MC_Sync_gate.cfg')])
 
 
+def sstack_level_f(ctx, lib):
+    """Level F of the sleep stack the barrier parks its waiters on: exhaustive TLC runs, a calibration mutant, and
+    strict replay of TLC behaviours in the real push / pop code"""
+    for c in (['SleepStack_3.cfg'] if ctx.quick else ['SleepStack_3.cfg', 'SleepStack_4.cfg']):
+        run_design(ctx, 'SleepStack', c)
+    if not os.environ.get('VERIF_SKIP_MC'):
+        g = os.path.join(SPEC, 'gen_SleepStack_mut.cfg')
+        open(g, 'w').write(open(os.path.join(SPEC, 'SleepStack_3.cfg')).read().replace('MUTANT = "none"', 'MUTANT = "fastpop"'))
+        try:
+            r = tlc_design('SleepStack', g, coverage=False, heap='4g', timeout=900)
+        finally:
+            os.remove(g)
+        if r['ok']:
+            raise Infra('calibration: SleepStack_3 does not detect the non-atomic single-element pop')
+        ctx.cov['design_runs'].append({'module': 'SleepStack', 'cfg': 'SleepStack_3.cfg with MUTANT=fastpop (calibration)', 'result': r['violation'], 'expected': 'violation'})
+    unit = os.path.join(BUILD, 'unit_sstack')
+    inc = '-I%s/include -I%s/src %s' % (REPO, REPO, ('-I%s/cfg' % lib) if os.path.isdir(lib + '/cfg') else '')
+    rc, o = sh('gcc -O1 -g -w -D_GNU_SOURCE -DMYTH_WRAP=MYTH_WRAP_VANILLA %s -o %s %s/harness/unit_sstack.c -lpthread' % (inc, unit, VERIF), timeout=300)
+    if rc != 0:
+        raise Infra('unit_sstack build failed: ' + o[-2000:])
+    meta = os.path.join(BUILD, 'tlc', 'ssr_%d' % os.getpid()); shutil.rmtree(meta, ignore_errors=True)
+    rc, out = java_tlc(['-simulate', 'num=%d' % (60 if ctx.quick else 600), '-depth', '49', '-seed', str(ctx.seed), '-workers', '4', '-metadir', meta, '-config', 'SSReplay.cfg', 'SSReplay.tla'],
+                       heap='4g', timeout=1200)
+    shutil.rmtree(meta, ignore_errors=True)
+    behs = []
+    for l in out.split('\n'):
+        m = re.match(r'<<"BEHAVIOUR", "(.*)">>$', l.strip())
+        if m:
+            behs.append(json.loads(m.group(1).encode().decode('unicode_escape')))
+    if len(behs) < 20:
+        raise Infra('no sleep-stack behaviours generated: ' + out[-800:])
+    pid = {'a': 0, 'b': 1, 'c': 2, 'pop': 3}
+    bf = os.path.join(ctx.work, 'sstack_behaviours.txt')
+    labels = set()
+    with open(bf, 'w') as f:
+        for b in behs:
+            f.write('BEGIN %d\n' % len(b))
+            for e in b:
+                nx = e['next']
+                nxl = [nx[i] for i in range(6)] if isinstance(nx, list) else [nx[str(i)] for i in range(1, 7)]
+                labels.add(e['from'])
+                f.write('%d %s %s %d %d %s\n' % (pid[e['p']], e['from'], e['to'], e['x'], e['top'], ' '.join(map(str, nxl))))
+    if not {'stpush_ld', 'stpush_cas', 'stpop_ld', 'stpop_cas'} <= labels:
+        raise Infra('vacuity: sleep-stack steps never replayed: %s' % sorted(labels))
+    rc, o = sh([unit, bf], timeout=600)
+    m = re.search(r'behaviours=(\d+) steps=(\d+) failed=(\d+)', o)
+    if not m:
+        ctx.violation('sleep-stack unit harness died while replaying specification behaviours: %s' % o[-300:], [bf])
+        return
+    ctx.cov['behaviours_replayed_into_impl'] = ctx.cov.get('behaviours_replayed_into_impl', 0) + int(m.group(1))
+    ctx.cov['replayed_steps'] = ctx.cov.get('replayed_steps', 0) + int(m.group(2))
+    if int(m.group(3)) > 0:
+        first = [l for l in o.split('\n') if l.startswith(('DIVERGE', 'MISMATCH'))][:1]
+        ctx.violation('%s of %s specification behaviours of the sleep stack are not reproduced by the code: %s' % (m.group(3), m.group(1), first), [bf])
+    ctx.log('S->C %s sleep-stack behaviours (%s steps) replayed in the real push / pop code' % (m.group(1), m.group(2)))
+
+
 def check_C06(ctx):
+    sstack_level_f(ctx, build_lib())
     std_check(ctx, [('MC_Sync', 'MC_Sync_barrier.cfg')], gen_barrier_prog, 30, 6,
               [('early_pass', mut_first(lambda e: e['e'] == 'U_BarrierCall', lambda evs, i: evs[:i + 1] + [{'w': evs[i]['w'], 'e': 'U_BarrierRet', 'a': [evs[i]['a'][0], evs[i]['a'][1], 0, 2]}] + evs[i + 1:])),
                ('serial_flag_flipped', mut_first(lambda e: e['e'] == 'U_BarrierRet' and e['a'][2] == 1, set_arg(2, 0))),
